@@ -301,6 +301,54 @@ func (g *Gen) RandomCase(lookalike bool, withTrailer bool) *Case {
 
 func (g *Gen) pick(s []string) []byte { return []byte(s[g.R.Intn(len(s))]) }
 
+// NeighbourCase: flat header / body of text fields whose values BEGIN with "<tag>=" of the field that follows or precedes them in
+// the template (or of a framing field), all of them populated: a parser that resumes its search inside the previous field's
+// value, or takes a value's beginning for the next field, reads another message.
+func (g *Gen) NeighbourCase() *Case {
+	g.used = map[string]bool{}
+	t := stdTags
+	mkList := func(n int) []Node {
+		out := make([]Node, n)
+		for i := range out {
+			ty := []string{"string", "raw", "string"}[g.R.Intn(3)]
+			out[i] = Node{K: "kv", Tag: g.freshTag(t), Ty: ty, Pop: true, Via: g.via(ty), Txt: ToB(g.randBytes(1+g.R.Intn(6), nil))}
+		}
+		word := func() string { return string(g.randBytes(1+g.R.Intn(5), nil)) }
+		for i := range out {
+			switch g.R.Intn(4) {
+			case 0, 1:
+				if i+1 < n {
+					out[i].Txt = S2B(out[i+1].Tag.String() + "=" + word())
+				} else {
+					out[i].Txt = S2B(t.Cs.String() + "=" + fmt.Sprintf("%03d", g.R.Intn(256)))
+				}
+			case 2:
+				if i > 0 {
+					out[i].Txt = S2B(out[i-1].Tag.String() + "=" + word())
+				} else {
+					out[i].Txt = S2B(t.Mt.String() + "=" + word())
+				}
+			}
+		}
+		return out
+	}
+	m := Msg{Tags: t, BeginString: S2B("FIX.4.4"), MsgType: ToB(g.pick([]string{"A", "0", "D"}))}
+	if g.R.Intn(2) == 0 {
+		m.Header = mkList(2 + g.R.Intn(2))
+	}
+	m.Body = mkList(2 + g.R.Intn(5))
+	m.Norm()
+	c := &Case{ID: g.id("nb"), M: m, Lookalike: true}
+	var all []string
+	tagsOf(m.Header, &all)
+	tagsOf(m.Body, &all)
+	all = append(all, t.Bs.String(), t.Bl.String(), t.Mt.String(), t.Cs.String())
+	for _, s := range all {
+		c.Lookups = append(c.Lookups, S2B(s))
+	}
+	return c
+}
+
 // SizedCase: one string field whose length puts the body length exactly on target.
 func (g *Gen) SizedCase(target int) *Case {
 	g.used = map[string]bool{}
@@ -341,6 +389,7 @@ func (g *Gen) WrapCase(limit int) *Case {
 // ValueOpsCase: a random operation sequence on one value type.
 func (g *Gen) ValueOps(ty string, n int) (string, []ValOp) {
 	ops := make([]ValOp, 0, n)
+	var last B
 	for i := 0; i < n; i++ {
 		choices := []string{"new", "set", "parse", "setnil", "parsenil", "zero"}
 		if ty == "raw" {
@@ -354,6 +403,11 @@ func (g *Gen) ValueOps(ty string, n int) (string, []ValOp) {
 		switch op {
 		case "new", "set", "parse":
 			vo.Txt = ToB(g.randValue(ty, nil))
+			// the same text again (after a clear, after another text, straight away): one time in three
+			if last != nil && g.R.Intn(3) == 0 {
+				vo.Txt = last
+			}
+			last = vo.Txt
 		}
 		ops = append(ops, vo)
 	}
